@@ -13,8 +13,8 @@ import os, re, json, stat
 from concurrent.futures import ThreadPoolExecutor
 from . import common as C, repo as R
 
-FLAGS_AS_IS = "000000"   # fixed_P7 fixed_P8 fixed_mv_absent fixed_P45 fixed_P47 fixed_P3
-FLAG_NAMES = ("fixed_P7", "fixed_P8", "fixed_mv_absent", "fixed_P45", "fixed_P47", "fixed_P3")
+FLAGS_AS_IS = "0000000000"   # fixed_P7 fixed_P8 fixed_mv_absent fixed_P45 fixed_P47 fixed_P3 + core (Repo/Fix.v): fixed_P44 fixed_P41 fixed_P49 fixed_P43
+FLAG_NAMES = ("fixed_P7", "fixed_P8", "fixed_mv_absent", "fixed_P45", "fixed_P47", "fixed_P3", "fixed_P44", "fixed_P41", "fixed_P49", "fixed_P43")
 
 
 def flags_from_source():
@@ -45,7 +45,9 @@ def flags_from_source():
     p45 = "is not in the cache" in mv and (bool(re.search(r"XvcCachePath::new\(dest_path, cd\)", mv)) or p3)
     # the fix of P47: untrack skips a link whose cache file is gone
     p47 = "its content is not in the cache" in un
-    return "".join("1" if b else "0" for b in (p7, p8, mva, p45, p47, p3))
+    # the switches of the core commands track / carry-in (Repo/Fix.v) are probed on the binary (vlib/repo.py:probe_fixes;
+    # an inconclusive probe raises R.ProbeError: the check then fails as a correspondence failure without input)
+    return "".join("1" if b else "0" for b in (p7, p8, mva, p45, p47, p3)) + R.current_fixes()
 MINE = ("copy", "move", "remove", "untrack")
 
 TRUSTED = [
